@@ -39,7 +39,7 @@ theorem created_moved {w : WM} (hok : RowsOK w) (e : Handle) (hfresh : NotInRow 
         (insVals info pf.final (Mask.ofList (pf.src.map (·.1)))),
        insCbs info pf.final (Mask.ofList (pf.src.map (·.1))) e) := by
     unfold packMoved
-    simp only [if_true]
+    simp only [if_true, packTarget_create]
     rw [archInsert_form, hkey.1]
   rw [hpk]
   have hai := getArch_idx_lt w pf.final sh
